@@ -69,7 +69,8 @@ def gen_plan(run_seed, tier, index):
     dn = r.choice([None] + model['namespaces'])
     n = r.randint(3, 10)
     ops = opgen.gen_program(stream(run_seed, 'ops'), model,
-                            dn or 'root/cimv2', n, valid_only=True)
+                            dn or 'root/cimv2', n, valid_only=True,
+                            with_export=True)
     fr = stream(run_seed, 'faults')
     faults = []
     for _ in range(fr.choice([0, 1, 1, 2, 3])):
